@@ -140,6 +140,15 @@ CHECKS = {
         "Trusted: layout row structure (C03), mc/refs/widths.py; up/down accept any position at minimal distance from the preferred column (and the start of a combining cluster).",
         "DESIGN.md §4 C10",
     ),
+    "C20": (
+        MC,
+        "explicit-state BFS over histories of scrolling keys, wheel events, set_scrollpos (positive/negative), resizes, content changes and unrendered two-input sequences on Scrollable / ScrollBar fixtures with unique content rows; every state rendered and compared with the wrapped widget's own full rendering; exhaustive set_scrollpos sweeps for thumb monotonicity",
+        "7 contents (Text of 1/3/7 lines, wrapping Text, Pile with Edit, Pile of icons, fixed BigText) x {Scrollable alone, ScrollBar right/left width 1/2} x 7 sizes incl. 1-row, 1-column "
+        "and bar-wide views; ops: 7 keys, wheel up/down, 7 positions, resize to every size, content longer/shorter, and pairs of inputs without a render in between; depth 2/3; clauses: slice, "
+        "range, reports-p, bar-iff-overflow, bar geometry, thumb-top-iff-p0, thumb-monotone (complete sweep), no-double-use; ScrollBar(ListBox) walks for geometry.",
+        "Trusted: unique rows identify p; distinctive thumb/trough characters; weakest readings in the evidence assumptions.",
+        "DESIGN.md §4 C20",
+    ),
 }
 
 PENDING_REASON = "check not built yet in this round (see DESIGN.md Appendix B build order); no claim is made"
